@@ -478,3 +478,154 @@ def _reported(cls, name):
 
 for _n, _c in ALL_STATES:
     _reported(_c, _n)
+
+
+# ------------------------------------------------------------------ validators: identity and totality
+from contracts.common import generic_avp_shape          # noqa: E402
+from contracts.assoc import connection                  # noqa: E402
+from bromelia.constants import ORIGIN_HOST_AVP_CODE, ORIGIN_REALM_AVP_CODE     # noqa: E402
+
+
+def _peer_identity_ascii(connection):
+    # DiameterIdentity is an FQDN: no U+FFFD (the stand-in character for undecodable bytes) in it
+    return "�" not in connection.peer_node.host_name and "�" not in connection.peer_node.realm
+
+
+@contract("bromelia.process.ProcessDiameterMessage.is_valid_origin_host_avp", prop="C06", name="_")
+class _ValidOriginHost:
+    """accepted only when it IS an Origin-Host AVP naming the configured peer; total on every AVP"""
+    args = {"avp": generic_avp_shape(data=T.Bytes(maxlen=128)), "connection": connection(mode=T.Const("SERVER"))}
+
+    def requires(connection):
+        return _peer_identity_ascii(connection)
+
+    def ensures_accepts_only_the_configured_peer(avp, connection, result):
+        return implies(result == True, avp._code == ORIGIN_HOST_AVP_CODE
+                       and avp._data == connection.peer_node.host_name.encode("utf-8"))
+
+    def ensures_boolean_or_nothing(result):
+        return result is None or result == True or result == False
+
+    def exceptional(exc):
+        return False
+
+    def control_accepts_any_origin_host(avp, result):
+        return implies(avp._code == ORIGIN_HOST_AVP_CODE, result == True)
+
+
+@contract("bromelia.process.ProcessDiameterMessage.is_valid_origin_realm_avp", prop="C06", name="_")
+class _ValidOriginRealm:
+    args = {"avp": generic_avp_shape(data=T.Bytes(maxlen=128)), "connection": connection(mode=T.Const("SERVER"))}
+
+    def requires(connection):
+        return _peer_identity_ascii(connection)
+
+    def ensures_accepts_only_the_configured_realm(avp, connection, result):
+        return implies(result == True, avp._code == ORIGIN_REALM_AVP_CODE
+                       and avp._data == connection.peer_node.realm.encode("utf-8"))
+
+    def ensures_boolean_or_nothing(result):
+        return result is None or result == True or result == False
+
+    def exceptional(exc):
+        return False
+
+
+# ------------------------------------------------------------------ whole-message verdicts (bounded)
+import itertools as _it      # noqa: E402
+import os as _os             # noqa: E402
+
+
+def _alphabet():
+    from bromelia.base import DiameterAVP
+    from bromelia.avps import (OriginHostAVP, OriginRealmAVP, HostIpAddressAVP, VendorIdAVP, ProductNameAVP,
+                               OriginStateIdAVP, ResultCodeAVP, DisconnectCauseAVP)
+    return [("OH+", lambda: OriginHostAVP("peer.example")), ("OH-", lambda: OriginHostAVP("intruder.example")),
+            ("OHx", lambda: DiameterAVP(code=264, flags=0x40, data=b"\xff\xfe")),
+            ("OR+", lambda: OriginRealmAVP("example")), ("OR-", lambda: OriginRealmAVP("elsewhere")),
+            ("IP", lambda: HostIpAddressAVP("10.0.0.2")), ("VI", lambda: VendorIdAVP(10415)),
+            ("PN", lambda: ProductNameAVP("x")), ("OS", lambda: OriginStateIdAVP(1)),
+            ("RC", lambda: ResultCodeAVP(2001)), ("DC", lambda: DisconnectCauseAVP())]
+
+
+@table("validator-verdicts", prop="C06")
+def validator_verdicts():
+    """every AVP sequence up to a length bound over an 11-symbol alphabet (right / wrong / undecodable
+    Origin-Host, right / wrong Origin-Realm, the other CER/DWR/DPR AVPs), as request and as answer, through
+    the REAL validators: never raises; accepted => the configured Origin-Host AND Origin-Realm are present"""
+    from bromelia.base import DiameterMessage, DiameterHeader
+    from bromelia.process import BaseMessageProcessor
+    from bromelia._internal_utils import Connection, LocalNode, PeerNode
+    depth = 6 if _os.environ.get("VERIF_TIER") == "thorough" else 5
+    conn = Connection(name="x", mode="SERVER", transport_type="TCP",
+                      local_node=LocalNode("local.example", "example", "127.0.0.1", 3868),
+                      peer_node=PeerNode("peer.example", "example", "127.0.0.2", 3868),
+                      application_ids=[], watchdog_timeout=30)
+
+    class Assoc(object):
+        pass
+    a = Assoc()
+    a.connection, a.end_to_end_identifiers, a.pending_requests = conn, [], {}
+    proc = BaseMessageProcessor(a)
+    alpha = _alphabet()
+    objs = {k: f() for k, f in alpha}
+    names = [k for k, _ in alpha]
+    raised, no_host, no_realm, checked = [], {}, {}, 0
+    for cmdcode, fn in ((257, proc.is_valid_capability_exchange), (280, proc.is_valid_device_watchdog),
+                        (282, proc.is_valid_disconnect_peer)):
+        for flags in (0x80, 0x00):
+            hdr = DiameterHeader(command_code=cmdcode, flags=flags)
+            msg = DiameterMessage(hdr, [])
+            key = "%d %s" % (cmdcode, "request" if flags else "answer")
+            for n in range(0, depth + 1):
+                for seq in _it.combinations_with_replacement(names, n):   # the validators count: order-free
+                    msg._avps = [objs[k] for k in seq]
+                    checked += 1
+                    try:
+                        ok = fn(msg)
+                    except BaseException as e:  # noqa
+                        if len(raised) < 4:
+                            raised.append((cmdcode, hex(flags), list(seq), type(e).__name__))
+                        continue
+                    # (the report lists sequences of up to 5 AVPs only, so that it reads the same at every depth)
+                    if ok and "OH+" not in seq:
+                        no_host.setdefault(key if n <= 5 else key + " (longer)", "+".join(seq) or "(no AVP)")
+                    if ok and "OR+" not in seq:
+                        no_realm.setdefault(key if n <= 5 else key + " (longer)", "+".join(seq) or "(no AVP)")
+
+    def show(d):
+        return "; ".join("%s: %s" % kv for kv in sorted(d.items()) if not kv[0].endswith("(longer)"))
+    return [("validators-never-raise", not raised, {"checked": checked, "raised": raised}),
+            ("accepted-implies-configured-origin-host", not no_host,
+             "accepted without the configured Origin-Host (first per command) -- " + show(no_host)),
+            ("accepted-implies-configured-origin-realm", not no_realm,
+             "accepted without the configured Origin-Realm (first per command) -- " + show(no_realm))]
+
+
+validator_verdicts.bounded = ("AVP multisets of size <= 5 over an 11-symbol alphabet x {CER,CEA,DWR,DWA,DPR,DPA}, "
+                              "native run of the real validators")
+
+
+# ------------------------------------------------------------------ peer disconnect outside Open (known finding)
+def _peer_gone(cls, name, label):
+    from contracts.assoc import transport as _tr
+    tr = T.Obj(TR.TcpClient, idict={"is_connected": T.Const(True), "_stop_threads": T.Const(True),
+                                    "events": T.ListOf(), "tracking_events_count": T.Const(0),
+                                    "events_mask": T.Const(1), "write_mode_on": T.Sync("event"),
+                                    "read_mode_on": T.Sync("event", flag=True)})
+
+    @contract("bromelia.statemachine.%s.run" % cls.__name__, prop="C06", name=label)
+    class _G:
+        """the transport has signalled that the peer closed the connection and nothing is queued"""
+        args = {"self": state_obj(cls, T.NoneS, mode=T.Const("CLIENT"), recv=T.Sync("queue"),
+                                  send=T.Sync("queue"), transport_shape=tr, active=T.Const(True))}
+        setup_spec = snap
+
+        def ensures_peer_disconnect_closes(self):
+            return self.next_state == CLOSED
+    return _G
+
+
+_peer_gone(SM.Open, OPEN, "peer-gone")
+_peer_gone(SM.Closing, CLOSING, "peer-gone")
+_peer_gone(SM.WaitInitiatorCEA, WAIT_I_CEA, "peer-gone")
